@@ -25,6 +25,8 @@ use kira::listener::ListenerHandle;
 use kira::modulator::lfo::{LfoBuilder, LfoHandle, Waveform};
 use kira::modulator::tweener::{TweenerBuilder, TweenerHandle};
 use kira::sound::static_sound::{StaticSoundData, StaticSoundHandle, StaticSoundSettings};
+use kira::sound::streaming::{Decoder, StreamingSoundData, StreamingSoundHandle};
+use kira::sound::PlaybackState;
 use kira::track::{
 	MainTrackBuilder, SendTrackBuilder, SendTrackHandle, SpatialTrackBuilder, SpatialTrackHandle, TrackBuilder,
 	TrackHandle,
@@ -36,70 +38,175 @@ use std::sync::Arc;
 use std::time::Duration;
 
 // ------------------------------------------------------------------------------------------------
+// EXTREME finite arguments.  Every argument the generator draws goes through `G::f64v` / `f32v` /
+// `durv` / `ticksv`: with the case's probability `xp` (per mille) the value comes from the pools
+// below instead of the ordinary pool of that argument — ±huge, f64::MAX, values just beyond 2^53
+// (where `x - 1.0 == x`), 2^63 / 2^64 (where `as usize` / `as u64` saturate), the smallest subnormal,
+// -0.0, Duration::MAX, u64::MAX ticks.  They are chosen so that a loop whose trip count is
+// proportional to the argument needs > 10^13 iterations (years) — see `run` for the watchdog.
+// NOT drawn: arguments that size an allocation on the GAME thread (delay_time, capacities,
+// internal_buffer_size, callback length): a huge one aborts the process, which is not the audio thread.
+// ------------------------------------------------------------------------------------------------
+
+const X64: &[f64] = &[
+	1e300,
+	-1e300,
+	f64::MAX,
+	f64::MIN,
+	9007199254740994.0,    // 2^53 + 2
+	-9007199254740994.0,
+	9.223372036854775808e18,  // 2^63
+	1.8446744073709551616e19, // 2^64
+	-1.8446744073709551616e19,
+	1e19,
+	5e-324, // smallest subnormal
+	-5e-324,
+	2.2250738585072014e-308, // smallest normal
+	1e-300,
+	-0.0,
+];
+const X32: &[f32] = &[
+	1e30,
+	-1e30,
+	f32::MAX,
+	f32::MIN,
+	16777218.0, // 2^24 + 2
+	-16777218.0,
+	1e-45, // smallest subnormal
+	-1e-45,
+	1.1754944e-38, // smallest normal
+	-0.0,
+	3e38,
+];
+/// durations as ops tokens: nanoseconds, or `max` = Duration::MAX (u64::MAX s + 999 999 999 ns)
+const XDUR: &[&str] = &["max", "18446744073709551615", "9223372036854775808", "9007199254740993000000000", "1"];
+const XTICKS: &[u64] = &[u64::MAX, u64::MAX - 1, 1 << 63, (1 << 53) + 1, 1 << 32];
+
+/// argument kinds whose extreme values are RECORDED known findings that hang the audio thread (each would
+/// cost a watchdog timeout and leave a spinning thread behind): their extremes are replayed from
+/// `corpus/system/known_*.ops` and not drawn at random.
+const X_EXCLUDED: &[&str] = &["play.rate", "snd.set.rate"];
+
+struct G<'a> {
+	rng: &'a mut Rng,
+	stats: &'a mut Stats,
+	/// probability (per mille) that an argument of this case is drawn from the extreme pools
+	xp: u64,
+}
+
+impl G<'_> {
+	fn x(&mut self, kind: &str) -> bool {
+		if self.xp == 0 || X_EXCLUDED.contains(&kind) || self.rng.below(1000) >= self.xp {
+			return false;
+		}
+		self.stats.hit(&format!("x:{}", kind));
+		true
+	}
+	fn f64v(&mut self, kind: &str, pool: &[f64]) -> f64 {
+		if self.x(kind) {
+			self.rng.pick(X64)
+		} else {
+			self.rng.pick(pool)
+		}
+	}
+	fn f32v(&mut self, kind: &str, pool: &[f32]) -> f32 {
+		if self.x(kind) {
+			self.rng.pick(X32)
+		} else {
+			self.rng.pick(pool)
+		}
+	}
+	fn durv(&mut self, kind: &str, pool: &[u64]) -> String {
+		if self.x(kind) {
+			self.rng.pick(XDUR).to_string()
+		} else {
+			self.rng.pick(pool).to_string()
+		}
+	}
+	fn ticksv(&mut self, kind: &str, n: u64) -> u64 {
+		if self.x(kind) {
+			self.rng.pick(XTICKS)
+		} else {
+			self.rng.below(n)
+		}
+	}
+}
+
+/// `max` = Duration::MAX, otherwise nanoseconds (u128 so that values past u64 nanoseconds can be written)
+fn pdur(s: &str) -> Duration {
+	if s == "max" {
+		return Duration::MAX;
+	}
+	let n: u128 = s.parse().expect("bad duration");
+	Duration::new((n / 1_000_000_000).min(u64::MAX as u128) as u64, (n % 1_000_000_000) as u32)
+}
+
+// ------------------------------------------------------------------------------------------------
 // effect descriptors:  kind:arg:arg…   (floats as hex bits)
 // ------------------------------------------------------------------------------------------------
 
-fn gen_fx(rng: &mut Rng, depth: u32) -> String {
-	let mix = o32(rng.pick(&[0.0f32, 1.0, 0.5, 0.25, 1.0, 1.0, 0.5, -0.5, 1.5]));
-	match rng.below(8) {
+fn gen_fx(g: &mut G, depth: u32) -> String {
+	let mix = o32(g.f32v("fx.mix", &[0.0f32, 1.0, 0.5, 0.25, 1.0, 1.0, 0.5, -0.5, 1.5]));
+	match g.rng.below(8) {
 		0 => format!(
 			"filter:{}:{}:{}:{}",
-			rng.below(4),
-			o64(rng.pick(&[20.0, 200.0, 1000.0, 5000.0, 20000.0, 3999.0, 12345.6])),
-			o64(rng.pick(&[0.0, 0.5, 1.0, 0.9, -0.5, 1.5])),
+			g.rng.below(4),
+			o64(g.f64v("filter.cutoff", &[20.0, 200.0, 1000.0, 5000.0, 20000.0, 3999.0, 12345.6])),
+			o64(g.f64v("filter.resonance", &[0.0, 0.5, 1.0, 0.9, -0.5, 1.5])),
 			mix
 		),
 		1 => format!(
 			"eq:{}:{}:{}:{}",
-			rng.below(3),
-			o64(rng.pick(&[20.0, 100.0, 1000.0, 8000.0, 20000.0])),
-			o32(rng.pick(&[0.0f32, 6.0, -6.0, 12.0, -24.0])),
-			o64(rng.pick(&[0.01, 0.5, 1.0, 4.0]))
+			g.rng.below(3),
+			o64(g.f64v("eq.frequency", &[20.0, 100.0, 1000.0, 8000.0, 20000.0])),
+			o32(g.f32v("eq.gain", &[0.0f32, 6.0, -6.0, 12.0, -24.0])),
+			o64(g.f64v("eq.q", &[0.01, 0.5, 1.0, 4.0]))
 		),
 		2 => format!(
 			"dist:{}:{}:{}",
-			rng.below(2),
-			o32(rng.pick(&[0.0f32, 6.0, 24.0, -12.0, -59.0])),
+			g.rng.below(2),
+			o32(g.f32v("dist.drive", &[0.0f32, 6.0, 24.0, -12.0, -59.0])),
 			mix
 		),
 		3 => format!(
 			"comp:{}:{}:{}:{}:{}:{}",
-			o64(rng.pick(&[0.0, -12.0, -24.0, -60.0])),
+			o64(g.f64v("comp.threshold", &[0.0, -12.0, -24.0, -60.0])),
 			// ratio: 0 and -0 have no reciprocal (used to turn the whole mix into NaN; now like ratio 1), 0.5 expands
-			o64(rng.pick(&[1.0, 2.0, 4.0, 100.0, 0.0, -0.0, 0.5, 0.0])),
-			rng.pick(&[0u64, 1_000_000, 10_000_000, 300_000_000]),
-			rng.pick(&[0u64, 1_000_000, 100_000_000, 1_000_000_000]),
-			o32(rng.pick(&[0.0f32, 6.0, -6.0])),
+			o64(g.f64v("comp.ratio", &[1.0, 2.0, 4.0, 100.0, 0.0, -0.0, 0.5, 0.0])),
+			g.durv("comp.attack", &[0u64, 1_000_000, 10_000_000, 300_000_000]),
+			g.durv("comp.release", &[0u64, 1_000_000, 100_000_000, 1_000_000_000]),
+			o32(g.f32v("comp.makeup", &[0.0f32, 6.0, -6.0])),
 			mix
 		),
 		4 => {
-			let inner = if depth == 0 && rng.chance(1, 3) { gen_fx(rng, 1).replace(':', ";") } else { "-".into() };
+			let inner = if depth == 0 && g.rng.chance(1, 3) { gen_fx(g, 1).replace(':', ";") } else { "-".into() };
 			format!(
 				"delay:{}:{}:{}:{}",
-				rng.pick(&[1_000_000u64, 10_000_000, 500_000_000, 33_333_333, 2_000_000]),
-				o32(rng.pick(&[-6.0f32, -60.0, -1.0, -12.0, -0.1])),
+				// delay_time sizes an allocation on the game thread: never extreme
+				g.rng.pick(&[1_000_000u64, 10_000_000, 500_000_000, 33_333_333, 2_000_000]),
+				o32(g.f32v("delay.feedback", &[-6.0f32, -60.0, -1.0, -12.0, -0.1])),
 				mix,
 				inner
 			)
 		}
 		5 => format!(
 			"reverb:{}:{}:{}:{}",
-			o64(rng.pick(&[0.9, 0.0, 0.5, 0.99])),
-			o64(rng.pick(&[0.1, 0.0, 1.0, 0.5])),
-			o64(rng.pick(&[1.0, 0.0, 0.5])),
+			o64(g.f64v("reverb.feedback", &[0.9, 0.0, 0.5, 0.99])),
+			o64(g.f64v("reverb.damping", &[0.1, 0.0, 1.0, 0.5])),
+			o64(g.f64v("reverb.width", &[1.0, 0.0, 0.5])),
 			mix
 		),
-		6 => format!("vol:{}", o32(rng.pick(&[0.0f32, -6.0, -60.0, 6.0, -70.0]))),
-		_ => format!("pan:{}", o32(rng.pick(&[0.0f32, -1.0, 1.0, 0.3, 2.0, -2.0, -1.0000001]))),
+		6 => format!("vol:{}", o32(g.f32v("vol.db", &[0.0f32, -6.0, -60.0, 6.0, -70.0]))),
+		_ => format!("pan:{}", o32(g.f32v("pan", &[0.0f32, -1.0, 1.0, 0.3, 2.0, -2.0, -1.0000001]))),
 	}
 }
 
-fn gen_fx_list(rng: &mut Rng) -> String {
-	let n = rng.pick(&[0u64, 0, 1, 1, 2, 3]);
+fn gen_fx_list(g: &mut G) -> String {
+	let n = g.rng.pick(&[0u64, 0, 1, 1, 2, 3]);
 	if n == 0 {
 		return "-".into();
 	}
-	(0..n).map(|_| gen_fx(rng, 0)).collect::<Vec<_>>().join(",")
+	(0..n).map(|_| gen_fx(g, 0)).collect::<Vec<_>>().join(",")
 }
 
 fn build_fx(desc: &str) -> Box<dyn Effect> {
@@ -138,8 +245,8 @@ fn build_fx(desc: &str) -> Box<dyn Effect> {
 		"comp" => CompressorBuilder::new()
 			.threshold(p64(p[1]))
 			.ratio(p64(p[2]))
-			.attack_duration(Duration::from_nanos(pu(p[3])))
-			.release_duration(Duration::from_nanos(pu(p[4])))
+			.attack_duration(pdur(p[3]))
+			.release_duration(pdur(p[4]))
 			.makeup_gain(Decibels(p32(p[5])))
 			.mix(Mix(p32(p[6])))
 			.build()
@@ -188,18 +295,68 @@ fn fx_list(desc: &str) -> Vec<Box<dyn Effect>> {
 // tweens / start times / values
 // ------------------------------------------------------------------------------------------------
 
-fn gen_tween(rng: &mut Rng, nclocks: usize) -> String {
-	let start = match rng.below(8) {
-		0 => format!("del:{}", rng.pick(&[0u64, 1_000_000, 50_000_000])),
-		1 if nclocks > 0 => format!("clk:{}:{}:{}", rng.below(nclocks as u64), rng.below(4), o64(rng.pick(&[0.0, 0.5]))),
+fn gen_tween(g: &mut G, nclocks: usize) -> String {
+	let start = match g.rng.below(8) {
+		0 => format!("del:{}", g.durv("start.delay", &[0u64, 1_000_000, 50_000_000])),
+		1 if nclocks > 0 => format!(
+			"clk:{}:{}:{}",
+			g.rng.below(nclocks as u64),
+			g.ticksv("start.ticks", 4),
+			o64(g.f64v("start.fraction", &[0.0, 0.5]))
+		),
 		_ => "imm".into(),
 	};
 	format!(
 		"{};{};{}",
 		start,
-		rng.pick(&[0u64, 1, 10_000_000, 1_000_000, 100_000_000, 1_000_000_000]),
-		fmt_easing(&gen_easing(rng))
+		g.durv("tween.duration", &[0u64, 1, 10_000_000, 1_000_000, 100_000_000, 1_000_000_000]),
+		fmt_easing(&gen_easing(g.rng))
 	)
+}
+
+/// in-memory decoder of a streaming sound (`splay`): 64-frame packets, exact seeks
+struct MemDecoder {
+	frames: Arc<[Frame]>,
+	sr: u32,
+	pos: usize,
+}
+impl Decoder for MemDecoder {
+	type Error = ();
+	fn sample_rate(&self) -> u32 {
+		self.sr
+	}
+	fn num_frames(&self) -> usize {
+		self.frames.len()
+	}
+	fn decode(&mut self) -> Result<Vec<Frame>, ()> {
+		let end = (self.pos + 64).min(self.frames.len());
+		let v = self.frames[self.pos..end].to_vec();
+		self.pos = end;
+		Ok(v)
+	}
+	fn seek(&mut self, index: usize) -> Result<usize, ()> {
+		self.pos = index.min(self.frames.len());
+		Ok(self.pos)
+	}
+}
+
+/// a static or a streaming sound handle: the `snd…` ops address either
+enum Snd {
+	St(StaticSoundHandle),
+	Sm(StreamingSoundHandle<()>),
+}
+macro_rules! snd_call {
+	($s:expr, $h:ident => $e:expr) => {
+		match $s {
+			Snd::St($h) => $e,
+			Snd::Sm($h) => $e,
+		}
+	};
+}
+impl Snd {
+	fn state(&self) -> PlaybackState {
+		snd_call!(self, h => h.state())
+	}
 }
 
 struct Scene {
@@ -211,7 +368,7 @@ struct Scene {
 	lfos: Vec<LfoHandle>,
 	tweeners: Vec<TweenerHandle>,
 	listeners: Vec<ListenerHandle>,
-	sounds: Vec<StaticSoundHandle>,
+	sounds: Vec<Snd>,
 }
 
 impl Scene {
@@ -221,7 +378,7 @@ impl Scene {
 		}
 		let p: Vec<&str> = s.split(':').collect();
 		match p[0] {
-			"del" => StartTime::Delayed(Duration::from_nanos(pu(p[1]))),
+			"del" => StartTime::Delayed(pdur(p[1])),
 			"clk" if !self.clocks.is_empty() => StartTime::ClockTime(ClockTime {
 				clock: self.clocks[pu(p[1]) as usize % self.clocks.len()].id(),
 				ticks: pu(p[2]),
@@ -234,7 +391,7 @@ impl Scene {
 		let p: Vec<&str> = s.split(';').collect();
 		Tween {
 			start_time: self.start(p[0]),
-			duration: Duration::from_nanos(pu(p[1])),
+			duration: pdur(p[1]),
 			easing: parse_easing(p[2]),
 		}
 	}
@@ -265,17 +422,17 @@ impl Scene {
 	}
 }
 
-fn gen_db(rng: &mut Rng) -> String {
-	if rng.chance(1, 6) {
+fn gen_db(g: &mut G) -> String {
+	if g.rng.chance(1, 6) {
 		format!(
 			"mod:{}{}:{}:{}",
-			rng.pick(&["l", "t"]),
-			rng.below(3),
-			o32(rng.pick(&[-60.0f32, -12.0, -6.0])),
-			o32(rng.pick(&[0.0f32, 6.0, -3.0]))
+			g.rng.pick(&["l", "t"]),
+			g.rng.below(3),
+			o32(g.f32v("db.map0", &[-60.0f32, -12.0, -6.0])),
+			o32(g.f32v("db.map1", &[0.0f32, 6.0, -3.0]))
 		)
 	} else {
-		format!("fix:{}", o32(rng.pick(&[0.0f32, -6.0, -60.0, 6.0, -3.0, -20.0, -61.0, 12.0])))
+		format!("fix:{}", o32(g.f32v("db", &[0.0f32, -6.0, -60.0, 6.0, -3.0, -20.0, -61.0, 12.0])))
 	}
 }
 
@@ -287,31 +444,44 @@ const RATES: &[u32] = &[8000, 11025, 22050, 44100, 48000, 96000, 192000];
 
 pub fn gen(rng: &mut Rng, n: usize, thorough: bool, stats: &mut Stats) -> Vec<String> {
 	let mut out = vec![];
+	let mut g = G { rng, stats, xp: 0 };
 	for case in 0..n {
 		out.push(format!("case {}", case));
-		let ibs = rng.pick(&[1u64, 2, 7, 16, 64, 128, 128, 256, 1000]);
+		// how extreme is this case: 55 % ordinary (no extreme argument at all), 30 % a few (each argument
+		// extreme with probability 3 %), 15 % many (25 %)
+		g.xp = match g.rng.below(20) {
+			0..=10 => 0,
+			11..=16 => 30,
+			_ => 250,
+		};
+		g.stats.hit(match g.xp {
+			0 => "case_ordinary",
+			30 => "case_few_extremes",
+			_ => "case_many_extremes",
+		});
+		let ibs = g.rng.pick(&[1u64, 2, 7, 16, 64, 128, 128, 256, 1000]);
 		out.push(format!(
 			"mgr {} {} {} {} {} {} {} {} {}",
-			rng.pick(&[1u64, 2, 4, 8]),
-			rng.pick(&[1u64, 2, 4]),
-			rng.pick(&[1u64, 2, 4]),
-			rng.pick(&[1u64, 2, 4]),
-			rng.pick(&[1u64, 2]),
+			g.rng.pick(&[1u64, 2, 4, 8]),
+			g.rng.pick(&[1u64, 2, 4]),
+			g.rng.pick(&[1u64, 2, 4]),
+			g.rng.pick(&[1u64, 2, 4]),
+			g.rng.pick(&[1u64, 2]),
 			ibs,
-			rng.pick(RATES),
-			gen_db(rng).replace("mod:l", "fix:").replace("mod:t", "fix:").split(':').take(2).collect::<Vec<_>>().join(":"),
-			gen_fx_list(rng)
+			g.rng.pick(RATES),
+			gen_db(&mut g).replace("mod:l", "fix:").replace("mod:t", "fix:").split(':').take(2).collect::<Vec<_>>().join(":"),
+			gen_fx_list(&mut g)
 		));
-		let steps = if thorough { rng.range(20, 80) } else { rng.range(12, 40) };
+		let steps = if thorough { g.rng.range(20, 80) } else { g.rng.range(12, 40) };
 		let mut nclocks = 0usize;
 		// resource churn: more create/drop generations of one kind than its capacity, with callbacks in
 		// between (every removed resource travels through the unused-resource ring, which only the
 		// gameplay thread's next create of that kind drains)
-		if rng.chance(1, 5) {
-			let kind = rng.pick(&["send", "clock", "lfo", "tweener", "listener", "track"]);
-			for _ in 0..rng.range(6, 11) {
+		if g.rng.chance(1, 5) {
+			let kind = g.rng.pick(&["send", "clock", "lfo", "tweener", "listener", "track"]);
+			for _ in 0..g.rng.range(6, 11) {
 				let create = match kind {
-					"send" => format!("send {} -", gen_db(rng)),
+					"send" => format!("send {} -", gen_db(&mut g)),
 					"clock" => {
 						nclocks += 1;
 						"clock tps 3ff0000000000000".to_string()
@@ -319,184 +489,276 @@ pub fn gen(rng: &mut Rng, n: usize, thorough: bool, stats: &mut Stats) -> Vec<St
 					"lfo" => "lfo 0 3ff0000000000000 3ff0000000000000 0000000000000000 0000000000000000".to_string(),
 					"tweener" => "tweener 0000000000000000".to_string(),
 					"listener" => "listener 00000000 00000000 00000000 00000000 00000000 00000000 3f800000".to_string(),
-					_ => format!("track -1 {} 0 -1 fix:00000000 -", gen_db(rng)),
+					_ => format!("track -1 {} 0 -1 fix:00000000 -", gen_db(&mut g)),
 				};
 				for l in [create, "cb 8 2".to_string(), format!("drop {} 0", kind), "cb 8 2".to_string()] {
-					stats.hit("churn");
+					g.stats.hit("churn");
 					out.push(l);
 				}
 			}
 		}
+		// extreme cases start with a bed the extreme arguments can act on: a running clock, a looping sound
+		// played forwards and one played in reverse (so that extreme seeks / loop regions / speeds / start
+		// times meet loop regions, reverse playback and ticking clocks), rendered once
+		if g.xp > 0 && g.rng.chance(2, 3) {
+			nclocks += 1;
+			let len = g.rng.pick(&[2u64, 3, 10, 100, 1000]);
+			let sr = g.rng.pick(&[100u32, 8000, 44100, 48000]);
+			let a = g.rng.below(len - 1);
+			for l in [
+				format!("clock {} {}", g.rng.pick(&["spt", "tps", "tpm"]), o64(g.rng.pick(&[0.5, 1.0, 120.0]))),
+				format!("clock.cmd {} start", nclocks - 1),
+				format!(
+					"play -1 {} {} 7 fix:00000000 {} 00000000 {} {} 0 0000000000000000 - imm -",
+					len,
+					sr,
+					o64(g.rng.pick(&[1.0, 0.5, 2.0])),
+					o64(a as f64 / sr as f64),
+					o64(-1.0)
+				),
+				format!(
+					"play -1 {} {} 8 fix:00000000 {} 00000000 {} {} 1 0000000000000000 - imm -",
+					len,
+					sr,
+					o64(g.rng.pick(&[1.0, -1.0, 2.0])),
+					o64(a as f64 / sr as f64),
+					o64((a + 1 + g.rng.below(len - a - 1)) as f64 / sr as f64)
+				),
+				"cb 32 2".to_string(),
+			] {
+				g.stats.hit("xbed");
+				out.push(l);
+			}
+		}
 		for _ in 0..steps {
-			let line = match rng.below(40) {
-				0 | 1 => format!("send {} {}", gen_db(rng), gen_fx_list(rng)),
+			let line = match g.rng.below(41) {
+				0 | 1 => format!("send {} {}", gen_db(&mut g), gen_fx_list(&mut g)),
 				2..=4 => format!(
 					"track {} {} {} {} {} {}",
-					rng.range(-1, 3),
-					gen_db(rng),
-					rng.below(2),
-					rng.range(-1, 2),
-					gen_db(rng),
-					gen_fx_list(rng)
+					g.rng.range(-1, 3),
+					gen_db(&mut g),
+					g.rng.below(2),
+					g.rng.range(-1, 2),
+					gen_db(&mut g),
+					gen_fx_list(&mut g)
 				),
 				5 => {
 					nclocks += 1;
-					format!("clock {} {}", rng.pick(&["spt", "tps", "tpm"]), o64(rng.pick(&[0.5, 1.0, 2.0, 120.0, 0.01, 1000.0])))
+					format!(
+						"clock {} {}",
+						g.rng.pick(&["spt", "tps", "tpm"]),
+						// 0.0: SecondsPerTick(0) = infinitely many ticks per second (used to hang the audio thread)
+						o64(g.f64v("clock.speed", &[0.5, 1.0, 2.0, 120.0, 0.01, 1000.0, 0.0, 1e6]))
+					)
 				}
-				6 => format!("clock.cmd {} {}", rng.below(4), rng.pick(&["start", "pause", "stop"])),
+				6 => format!("clock.cmd {} {}", g.rng.below(4), g.rng.pick(&["start", "pause", "stop", "start"])),
 				7 => format!(
 					"clock.speed {} {} {} {}",
-					rng.below(4),
-					rng.pick(&["spt", "tps", "tpm"]),
-					o64(rng.pick(&[0.25, 1.0, 3.0, 90.0])),
-					gen_tween(rng, nclocks)
+					g.rng.below(4),
+					g.rng.pick(&["spt", "tps", "tpm"]),
+					o64(g.f64v("clock.set_speed", &[0.25, 1.0, 3.0, 90.0, 0.0])),
+					gen_tween(&mut g, nclocks)
 				),
 				8 => format!(
 					"lfo {} {} {} {} {}",
-					rng.below(5),
-					o64(rng.pick(&[0.0, 0.5, 2.0, 20.0, 1000.0, -3.0])),
-					o64(rng.pick(&[1.0, 0.0, -1.0, 10.0])),
-					o64(rng.pick(&[0.0, 1.0, -0.5])),
-					o64(rng.pick(&[0.0, 90.0, 0.25, 720.0, -200.0]))
+					g.rng.below(5),
+					o64(g.f64v("lfo.frequency", &[0.0, 0.5, 2.0, 20.0, 1000.0, -3.0])),
+					o64(g.f64v("lfo.amplitude", &[1.0, 0.0, -1.0, 10.0])),
+					o64(g.f64v("lfo.offset", &[0.0, 1.0, -0.5])),
+					o64(g.f64v("lfo.phase", &[0.0, 90.0, 0.25, 720.0, -200.0]))
 				),
-				9 => format!("tweener {}", o64(rng.pick(&[0.0, 1.0, -1.0, 0.5]))),
-				10 => format!("tweener.set {} {} {}", rng.below(3), o64(rng.uniform(-2.0, 2.0)), gen_tween(rng, nclocks)),
-				11 => format!(
-					"listener {} {} {} {} {} {} {}",
-					o32(rng.uniform(-5.0, 5.0) as f32),
-					o32(rng.uniform(-5.0, 5.0) as f32),
-					o32(rng.uniform(-5.0, 5.0) as f32),
-					o32(rng.pick(&[0.0f32, 0.5, 0.70710677, 0.0])),
-					o32(rng.pick(&[0.0f32, 0.5, 0.70710677, 0.0])),
-					o32(rng.pick(&[0.0f32, 0.5, 0.0])),
-					o32(rng.pick(&[1.0f32, 0.5, 0.70710677, 0.0, 3.0, 1e-30]))
-				),
-				12 => {
-					// any finite distances, including max <= min (a step at min since the spatial fix)
-					let min = rng.pick(&[1.0f32, 0.0, 0.5, 10.0]);
-					let max = min + rng.pick(&[1.0f32, 100.0, 0.001, 50.0, 0.0, -0.5, -20.0]);
-					let pos = if rng.chance(1, 4) { (0.0, 0.0, 0.0) } else { (rng.uniform(-20.0, 20.0), rng.uniform(-20.0, 20.0), rng.uniform(-20.0, 20.0)) };
+				9 => format!("tweener {}", o64(g.f64v("tweener.initial", &[0.0, 1.0, -1.0, 0.5]))),
+				10 => {
+					let v = if g.x("tweener.set") { g.rng.pick(X64) } else { g.rng.uniform(-2.0, 2.0) };
+					format!("tweener.set {} {} {}", g.rng.below(3), o64(v), gen_tween(&mut g, nclocks))
+				}
+				11 => {
+					let mut c = [0f32; 3];
+					for x in c.iter_mut() {
+						*x = if g.x("listener.position") { g.rng.pick(X32) } else { g.rng.uniform(-5.0, 5.0) as f32 };
+					}
 					format!(
-						"spatial {} {} {} {} {} {} {} {} {}",
-						rng.below(2),
-						o32(pos.0 as f32),
-						o32(pos.1 as f32),
-						o32(pos.2 as f32),
-						o32(min),
-						o32(max),
-						if rng.chance(1, 2) { "-".to_string() } else { fmt_easing(&gen_easing(rng)) },
-						o32(rng.pick(&[0.75f32, 0.0, 1.0, 0.5])),
-						gen_db(rng)
+						"listener {} {} {} {} {} {} {}",
+						o32(c[0]),
+						o32(c[1]),
+						o32(c[2]),
+						o32(g.f32v("listener.quat", &[0.0f32, 0.5, 0.70710677, 0.0])),
+						o32(g.f32v("listener.quat", &[0.0f32, 0.5, 0.70710677, 0.0])),
+						o32(g.f32v("listener.quat", &[0.0f32, 0.5, 0.0])),
+						o32(g.f32v("listener.quat", &[1.0f32, 0.5, 0.70710677, 0.0, 3.0, 1e-30]))
 					)
 				}
-				13 => format!(
-					"listener.pos {} {} {} {} {}",
-					rng.below(2),
-					o32(rng.uniform(-20.0, 20.0) as f32),
-					o32(rng.uniform(-20.0, 20.0) as f32),
-					o32(rng.uniform(-20.0, 20.0) as f32),
-					gen_tween(rng, nclocks)
-				),
+				12 => {
+					// any finite distances, including max <= min (a step at min since the spatial fix)
+					let min = g.f32v("spatial.min", &[1.0f32, 0.0, 0.5, 10.0]);
+					let max = if g.x("spatial.max") { g.rng.pick(X32) } else { min + g.rng.pick(&[1.0f32, 100.0, 0.001, 50.0, 0.0, -0.5, -20.0]) };
+					let mut pos = if g.rng.chance(1, 4) {
+						[0f32; 3]
+					} else {
+						[g.rng.uniform(-20.0, 20.0) as f32, g.rng.uniform(-20.0, 20.0) as f32, g.rng.uniform(-20.0, 20.0) as f32]
+					};
+					for x in pos.iter_mut() {
+						if g.x("spatial.position") {
+							*x = g.rng.pick(X32);
+						}
+					}
+					format!(
+						"spatial {} {} {} {} {} {} {} {} {}",
+						g.rng.below(2),
+						o32(pos[0]),
+						o32(pos[1]),
+						o32(pos[2]),
+						o32(min),
+						o32(max),
+						if g.rng.chance(1, 2) { "-".to_string() } else { fmt_easing(&gen_easing(g.rng)) },
+						o32(g.f32v("spatial.strength", &[0.75f32, 0.0, 1.0, 0.5])),
+						gen_db(&mut g)
+					)
+				}
+				13 => {
+					let mut c = [0f32; 3];
+					for x in c.iter_mut() {
+						*x = if g.x("listener.set_position") { g.rng.pick(X32) } else { g.rng.uniform(-20.0, 20.0) as f32 };
+					}
+					format!("listener.pos {} {} {} {} {}", g.rng.below(2), o32(c[0]), o32(c[1]), o32(c[2]), gen_tween(&mut g, nclocks))
+				}
 				14..=18 => {
 					// static sound: length, sample rate, settings
-					let len = rng.pick(&[0u64, 1, 2, 3, 10, 100, 1000, 5000]);
-					let sr = rng.pick(&[1u32, 100, 8000, 22050, 44100, 48000]);
-					let dur = len as f64 / sr as f64;
-					let looped = len >= 2 && rng.chance(1, 3);
-					let (ls, le) = if looped {
+					let len = g.rng.pick(&[0u64, 1, 2, 3, 10, 100, 1000, 5000]);
+					let sr = g.rng.pick(&[1u32, 100, 8000, 22050, 44100, 48000]);
+					let looped = len >= 2 && g.rng.chance(1, 3);
+					let (mut ls, mut le) = if looped {
 						// a valid, non-empty loop region (at least one frame)
-						let a = rng.below(len - 1);
-						let b = a + 1 + rng.below(len - a - 1 + 1).min(len - a - 1);
-						(a as f64 / sr as f64, if rng.chance(1, 3) { -1.0 } else { b as f64 / sr as f64 })
+						let a = g.rng.below(len - 1);
+						let b = a + 1 + g.rng.below(len - a - 1 + 1).min(len - a - 1);
+						(a as f64 / sr as f64, if g.rng.chance(1, 3) { -1.0 } else { b as f64 / sr as f64 })
 					} else {
 						(-1.0, -1.0)
 					};
+					// extreme loop regions: a start / an end of 1e300 s saturates at usize::MAX frames; tiny and
+					// -0.0 ones round to frame 0 (negative values mean "none" / "to the end" in this ops format)
+					if g.x("play.loop_start") {
+						ls = g.rng.pick(X64).abs();
+					}
+					if ls >= 0.0 && g.x("play.loop_end") {
+						le = g.rng.pick(X64).abs();
+					}
 					// reversed sounds of any length (empty ones too), start positions inside, at and past the end in
 					// either direction (reverse + start ≥ length used to underflow in Transport::new: repaired)
-					let reverse = rng.chance(1, 4);
-					let _ = dur;
-					let startpos = rng.pick(&[0, 0, len.saturating_sub(1) / 2, len.saturating_sub(1), len, len + 1, 2 * len + 7]) as f64 / sr as f64;
+					let reverse = g.rng.chance(1, 4);
+					let startpos = if g.x("play.start_position") {
+						g.rng.pick(X64)
+					} else {
+						g.rng.pick(&[0, 0, len.saturating_sub(1) / 2, len.saturating_sub(1), len, len + 1, 2 * len + 7]) as f64 / sr as f64
+					};
 					// slice (the public field): none, inside the data, reaching past it, starting past it, inverted,
 					// empty (a slice past the data used to index out of bounds on the audio thread, an inverted one
 					// underflowed in num_frames: both repaired — the slice is clamped to the data)
-					let slice = match rng.below(12) {
+					let slice = match g.rng.below(12) {
 						0 | 1 => {
-							let a = rng.below(len + 1);
-							format!("{},{}", a, a + rng.below(len - a + 1))
+							let a = g.rng.below(len + 1);
+							format!("{},{}", a, a + g.rng.below(len - a + 1))
 						}
-						2 => format!("{},{}", rng.below(len + 1), len + 1 + rng.below(5000)),
-						3 => format!("0,{}", rng.pick(&[len + 1, u32::MAX as u64, u64::MAX])),
+						2 => format!("{},{}", g.rng.below(len + 1), len + 1 + g.rng.below(5000)),
+						3 => format!("0,{}", g.rng.pick(&[len + 1, u32::MAX as u64, u64::MAX])),
 						4 => {
-							let a = len + rng.below(3);
-							format!("{},{}", a, a + rng.below(4))
+							let a = len + g.rng.below(3);
+							format!("{},{}", a, a + g.rng.below(4))
 						}
 						5 => {
-							let a = 1 + rng.below(len + 2);
-							format!("{},{}", a, rng.below(a))
+							let a = 1 + g.rng.below(len + 2);
+							format!("{},{}", a, g.rng.below(a))
 						}
 						6 => {
-							let a = rng.below(len + 2);
+							let a = g.rng.below(len + 2);
 							format!("{},{}", a, a)
 						}
+						7 if g.xp > 0 => format!("{},{}", g.rng.pick(&[u64::MAX, u64::MAX - 1, 1 << 63]), g.rng.pick(&[u64::MAX, 0, 1 << 63])),
 						_ => "-".to_string(),
 					};
-					stats.hit(if slice == "-" { "play_unsliced" } else { "play_sliced" });
+					g.stats.hit(if slice == "-" { "play_unsliced" } else { "play_sliced" });
 					if reverse && startpos * sr as f64 >= len as f64 {
-						stats.hit("play_reverse_start_ge_len");
+						g.stats.hit("play_reverse_start_ge_len");
 					}
+					// one sound in five is a STREAMING sound over the same frames (in-memory decoder on its own thread;
+					// no slice, `reverse` ignored)
+					let op = if g.rng.chance(1, 5) { "splay" } else { "play" };
+					g.stats.hit(op);
 					format!(
-						"play {} {} {} {} {} {} {} {} {} {} {} {} {} {}",
-						rng.range(-1, 5),
+						"{} {} {} {} {} {} {} {} {} {} {} {} {} {} {}",
+						op,
+						g.rng.range(-1, 5),
 						len,
 						sr,
-						rng.below(1 << 30),
-						gen_db(rng),
-						o64(rng.pick(&[1.0, 1.0, 0.5, 2.0, -1.0, 0.0, 1.0 / 3.0, 10.0, 1.4142135623730951])),
-						o32(rng.pick(&[0.0f32, -1.0, 1.0, 0.3, -2.0, 3.0, -1.5])),
+						g.rng.below(1 << 30),
+						gen_db(&mut g),
+						// (extreme playback rates are a recorded finding: X_EXCLUDED)
+						o64(g.f64v("play.rate", &[1.0, 1.0, 0.5, 2.0, -1.0, 0.0, 1.0 / 3.0, 10.0, 1.4142135623730951])),
+						o32(g.f32v("play.panning", &[0.0f32, -1.0, 1.0, 0.3, -2.0, 3.0, -1.5])),
 						o64(ls),
 						o64(le),
 						reverse as u8,
 						o64(startpos),
-						if rng.chance(1, 4) { gen_tween(rng, nclocks) } else { "-".into() },
-						if rng.chance(1, 5) { gen_tween(rng, nclocks).split(';').next().unwrap().to_string() } else { "imm".into() },
+						if g.rng.chance(1, 4) { gen_tween(&mut g, nclocks) } else { "-".into() },
+						if g.rng.chance(1, 5) { gen_tween(&mut g, nclocks).split(';').next().unwrap().to_string() } else { "imm".into() },
 						slice
 					)
 				}
 				19 | 20 => format!(
 					"snd {} {} {}",
-					rng.below(6),
-					rng.pick(&["pause", "resume", "stop", "resume_at"]),
-					gen_tween(rng, nclocks)
+					g.rng.below(6),
+					g.rng.pick(&["pause", "resume", "stop", "resume_at"]),
+					gen_tween(&mut g, nclocks)
 				),
-				21 => format!("snd.seek {} {} {}", rng.below(6), rng.pick(&["to", "by"]), o64(rng.pick(&[0.0, 0.01, -0.01, 1.0, 0.5, 100.0, -100.0]))),
-				22 => format!(
-					"snd.set {} {} {} {}",
-					rng.below(6),
-					rng.pick(&["vol", "rate", "pan"]),
-					o64(rng.pick(&[0.0, 1.0, -1.0, 2.0, -60.0, -6.0, 0.5])),
-					gen_tween(rng, nclocks)
+				21 => format!(
+					"snd.seek {} {} {}",
+					g.rng.below(6),
+					g.rng.pick(&["to", "by"]),
+					o64(g.f64v("snd.seek", &[0.0, 0.01, -0.01, 1.0, 0.5, 100.0, -100.0]))
 				),
+				22 => {
+					let what = g.rng.pick(&["vol", "rate", "pan"]);
+					format!(
+						"snd.set {} {} {} {}",
+						g.rng.below(6),
+						what,
+						o64(g.f64v(&format!("snd.set.{}", what), &[0.0, 1.0, -1.0, 2.0, -60.0, -6.0, 0.5])),
+						gen_tween(&mut g, nclocks)
+					)
+				}
 				23 => format!(
 					"trk {} {} {} {}",
-					rng.below(6),
-					rng.pick(&["vol", "pause", "resume", "resume_at"]),
-					gen_db(rng),
-					gen_tween(rng, nclocks)
+					g.rng.below(6),
+					g.rng.pick(&["vol", "pause", "resume", "resume_at"]),
+					gen_db(&mut g),
+					gen_tween(&mut g, nclocks)
 				),
-				24 => format!("drop {} {}", rng.pick(&["track", "send", "clock", "lfo", "tweener", "listener", "sound", "spatial"]), rng.below(6)),
-				25 | 26 if rng.chance(3, 4) => format!("rate {}", rng.pick(RATES)),
+				24 => format!("drop {} {}", g.rng.pick(&["track", "send", "clock", "lfo", "tweener", "listener", "sound", "spatial"]), g.rng.below(6)),
+				25 | 26 if g.rng.chance(3, 4) => format!("rate {}", g.rng.pick(RATES)),
+				27 => {
+					// set_loop_region at run time: none, a valid region in seconds, or extreme bounds
+					let a = g.f64v("snd.loop_start", &[0.0, 0.001, 0.01, 0.05]);
+					match g.rng.below(4) {
+						0 => format!("snd.loop {} - -", g.rng.below(6)),
+						1 => format!("snd.loop {} {} -", g.rng.below(6), o64(a.abs())),
+						_ => {
+							let b = if g.x("snd.loop_end") { g.rng.pick(X64).abs() } else { a.abs() + g.rng.pick(&[0.001, 0.01, 0.0, 1.0]) };
+							format!("snd.loop {} {} {}", g.rng.below(6), o64(a.abs()), o64(b))
+						}
+					}
+				}
 				_ => {
-					let frames = match rng.below(6) {
+					let frames = match g.rng.below(6) {
 						0 => 1,
 						1 => ibs,
 						2 => ibs * 3 + 1,
-						3 => rng.below(50) + 1,
-						_ => rng.below(700) + 1,
+						3 => g.rng.below(50) + 1,
+						_ => g.rng.below(700) + 1,
 					};
-					format!("cb {} {}", frames, rng.pick(&[2u64, 2, 2, 1, 3, 6, 8]))
+					format!("cb {} {}", frames, g.rng.pick(&[2u64, 2, 2, 1, 3, 6, 8]))
 				}
 			};
-			stats.hit(line.split(' ').next().unwrap());
+			g.stats.hit(line.split(' ').next().unwrap());
 			out.push(line);
 		}
 		out.push("cb 64 2".into());
@@ -748,7 +1010,41 @@ fn exec(sc: &mut Option<Scene>, l: &str, out: &mut Out) {
 			};
 			match r {
 				Ok(h) => {
-					s.sounds.push(h);
+					s.sounds.push(Snd::St(h));
+					out.put("ok")
+				}
+				Err(_) => out.put("limit"),
+			}
+		}
+		"splay" => {
+			let len = pu(tok[2]) as usize;
+			let sr = (pu(tok[3]) as u32).max(1);
+			let mut data = StreamingSoundData::from_decoder(MemDecoder { frames: noise_frames(len, pu(tok[4])), sr, pos: 0 })
+				.volume(s.db_value(tok[5]))
+				.playback_rate(PlaybackRate(p64(tok[6])))
+				.panning(Panning(p32(tok[7])))
+				.start_position(p64(tok[11]))
+				.start_time(s.start(tok[13]));
+			let (ls, le) = (p64(tok[8]), p64(tok[9]));
+			if ls >= 0.0 {
+				data = if le >= 0.0 { data.loop_region(ls..le) } else { data.loop_region(ls..) };
+			}
+			if tok[12] != "-" {
+				data = data.fade_in_tween(Some(s.tween(tok[12])));
+			}
+			let t = pi(tok[1]);
+			let r = if t >= 0 && !s.tracks.is_empty() {
+				let n = s.tracks.len();
+				s.tracks[t as usize % n].play(data).map_err(|_| ())
+			} else if t >= 0 && !s.spatials.is_empty() {
+				let n = s.spatials.len();
+				s.spatials[t as usize % n].play(data).map_err(|_| ())
+			} else {
+				s.mgr.play(data).map_err(|_| ())
+			};
+			match r {
+				Ok(h) => {
+					s.sounds.push(Snd::Sm(h));
 					out.put("ok")
 				}
 				Err(_) => out.put("limit"),
@@ -758,12 +1054,12 @@ fn exec(sc: &mut Option<Scene>, l: &str, out: &mut Out) {
 			Some(i) => {
 				let tw = s.tween(tok[3]);
 				match tok[2] {
-					"pause" => s.sounds[i].pause(tw),
-					"resume" => s.sounds[i].resume(tw),
-					"stop" => s.sounds[i].stop(tw),
+					"pause" => snd_call!(&mut s.sounds[i], h => h.pause(tw)),
+					"resume" => snd_call!(&mut s.sounds[i], h => h.resume(tw)),
+					"stop" => snd_call!(&mut s.sounds[i], h => h.stop(tw)),
 					_ => {
 						let st = tw.start_time;
-						s.sounds[i].resume_at(st, Tween { start_time: StartTime::Immediate, ..tw })
+						snd_call!(&mut s.sounds[i], h => h.resume_at(st, Tween { start_time: StartTime::Immediate, ..tw }))
 					}
 				}
 				out.put(format!("{:?}", s.sounds[i].state()).to_lowercase())
@@ -773,9 +1069,20 @@ fn exec(sc: &mut Option<Scene>, l: &str, out: &mut Out) {
 		"snd.seek" => match idx(tok[1], s.sounds.len()) {
 			Some(i) => {
 				if tok[2] == "to" {
-					s.sounds[i].seek_to(p64(tok[3]).abs())
+					snd_call!(&mut s.sounds[i], h => h.seek_to(p64(tok[3]).abs()))
 				} else {
-					s.sounds[i].seek_by(p64(tok[3]))
+					snd_call!(&mut s.sounds[i], h => h.seek_by(p64(tok[3])))
+				}
+				out.put("ok")
+			}
+			None => out.put("skip"),
+		},
+		"snd.loop" => match idx(tok[1], s.sounds.len()) {
+			Some(i) => {
+				match (tok[2], tok[3]) {
+					("-", _) => snd_call!(&mut s.sounds[i], h => h.set_loop_region(None)),
+					(a, "-") => snd_call!(&mut s.sounds[i], h => h.set_loop_region(p64(a)..)),
+					(a, b) => snd_call!(&mut s.sounds[i], h => h.set_loop_region(p64(a)..p64(b))),
 				}
 				out.put("ok")
 			}
@@ -786,9 +1093,9 @@ fn exec(sc: &mut Option<Scene>, l: &str, out: &mut Out) {
 				let tw = s.tween(tok[4]);
 				let v = p64(tok[3]);
 				match tok[2] {
-					"vol" => s.sounds[i].set_volume(Decibels(v as f32), tw),
-					"rate" => s.sounds[i].set_playback_rate(PlaybackRate(v), tw),
-					_ => s.sounds[i].set_panning(Panning(v as f32), tw),
+					"vol" => snd_call!(&mut s.sounds[i], h => h.set_volume(Decibels(v as f32), tw)),
+					"rate" => snd_call!(&mut s.sounds[i], h => h.set_playback_rate(PlaybackRate(v), tw)),
+					_ => snd_call!(&mut s.sounds[i], h => h.set_panning(Panning(v as f32), tw)),
 				}
 				out.put("ok")
 			}
@@ -877,15 +1184,39 @@ fn exec(sc: &mut Option<Scene>, l: &str, out: &mut Out) {
 	}
 }
 
+/// Watchdog: the longest time one op may take (see notes/C01.md "watchdog threshold").
+/// The slowest ordinary op (a 3001-frame, 8-channel callback through nested effects in the unoptimised
+/// build) takes well under 0.1 s; every value of the extreme pools that controls a trip count asks for
+/// more than 10^10 iterations (minutes to years, or never: `x - 1.0 == x` from 2^53 on), and nothing in
+/// between is drawn — so 6 s separates "long but proportional" from "stuck" with two orders of magnitude
+/// to spare on either side.  `KV_SYSTEM_TIMING=1` prints the slowest op of the run on stderr.
+pub const WATCHDOG: Duration = Duration::from_secs(6);
+
 pub fn run(ops: &[String]) -> Vec<String> {
-	run_cases(ops, Some(Duration::from_secs(6)), |case: &[String], out: &mut Out| {
+	let timing = std::env::var("KV_SYSTEM_TIMING").is_ok();
+	let slowest = Arc::new(std::sync::Mutex::new((Duration::ZERO, String::new())));
+	let slowest2 = slowest.clone();
+	let r = run_cases(ops, Some(WATCHDOG), move |case: &[String], out: &mut Out| {
 		let mut sc: Option<Scene> = None;
 		for l in case {
 			if l.starts_with("case") {
 				out.put(l.clone());
 				continue;
 			}
+			let t0 = std::time::Instant::now();
 			exec(&mut sc, l, out);
+			if timing {
+				let d = t0.elapsed();
+				let mut s = slowest2.lock().unwrap();
+				if d > s.0 {
+					*s = (d, l.clone());
+				}
+			}
 		}
-	})
+	});
+	if timing {
+		let s = slowest.lock().unwrap();
+		eprintln!("#TIMING slowest_op_ms={:.3} op={}", s.0.as_secs_f64() * 1e3, s.1);
+	}
+	r
 }
